@@ -866,13 +866,19 @@ impl World {
         }
     }
     pub fn collect_reward_ix(&mut self, i: usize, index: u8) -> Ix {
+        let v1: bool = self.r.gen();
+        self.collect_reward_ix_ver(i, index, v1)
+    }
+
+    /// `prefer_v1` is honoured when the reward mint is a Token program mint.
+    pub fn collect_reward_ix_ver(&mut self, i: usize, index: u8, prefer_v1: bool) -> Ix {
         let pi = self.positions[i].clone();
         let pool = self.pools[pi.pool].clone();
         let st = self.pool_state(pi.pool);
         let ri = st.reward_infos.get(index as usize).cloned().unwrap_or_default();
         let program = self.bank.get(&ri.mint).map(|a| a.owner).unwrap_or(TOKEN);
         let dest = if ri.initialized() { self.user_token(pi.owner, ri.mint) } else { self.users[pi.owner].key };
-        if program == TOKEN && self.r.gen() {
+        if program == TOKEN && prefer_v1 {
             b::CollectReward {
                 whirlpool: pool.key,
                 position_authority: self.users[pi.owner].key,
